@@ -26,9 +26,16 @@ DEFS = c03.DEFS + '''
 Fixpoint sorted_ins (a : N) (l : list N) : list N :=
   match l with [] => [a] | b :: r => if N.leb a b then a :: l else b :: sorted_ins a r end.
 Definition sortN (l : list N) := fold_right sorted_ins [] l.
-(* program, occurrence id, observed reference ids (sorted) *)
-Definition chk_refs (c : program * N * list N) : bool :=
-  let '(p, i, obs) := c in nl_eqb (sortN (refs_ids p i)) obs.
+Definition b2n (b : bool) : N := if b then 1%N else 0%N.
+Definition has_bind (p : program) (ids : list N) : bool :=
+  existsb (fun id => match find_occ id (occs_of p) with
+                     | Some (o, _) => role_eqb (o_role o) Bind | None => false end) ids.
+(* program, occurrence id, identifier, observed reference ids (sorted) ->
+   [identifier inside the C03 fragment; the variable has a binding; observed = specification] *)
+Definition chk_refs (c : program * N * N * list N) : list N :=
+  let '(p, i, x, obs) := c in
+  let spec := refs_ids p i in
+  [b2n (name_in_fragment p x); b2n (has_bind p spec); b2n (nl_eqb (sortN spec) obs)].
 Definition mkleaf (pv : str * str * bool) : leaf :=
   let '(p, v, s) := pv in {| l_prefix := p; l_value := v; l_sel := s |}.
 (* leaves (prefix, value, selected), new name, observed new text, old name *)
@@ -147,9 +154,9 @@ def run(ctx):
                         'protocol names and names reached through strings/getattr do not occur in the generated programs']
     progs = list(itertools.islice(c03.enum_bodies(2, 2, ['a']), ctx.n(40000, 400000)))
     ctx.rng.shuffle(progs)
-    progs = progs[:ctx.n(500, 6000)]
+    progs = progs[:ctx.n(int(os.environ.get("C05_N", 500)), 6000)]
     counter = [0]
-    for _ in range(ctx.n(300, 4000)):
+    for _ in range(ctx.n(int(os.environ.get("C05_M", 300)), 4000)):
         progs.append(c03.rand_body(ctx.rng, ctx.rng.randint(1, 4), ctx.rng.randint(2, 5), ['a', 'b'], counter))
     results = common.pmap(_task, progs, chunksize=8)
     defs, rcases, rmeta, tcases, tmeta, fcases = [DEFS], [], [], [], [], []
@@ -171,9 +178,8 @@ def run(ctx):
                               'get_references raised')
                 continue
             ctx.count('refs', (r['src'], rec['id']), nontrivial=len(rec['refs']) >= 2)
-            rcases.append('(%s, %d%%N, %s)' % (name, rec['id'], g_list(rec['refs'], g_N, 'N')))
+            rcases.append('(%s, %d%%N, %d%%N, %s)' % (name, rec['id'], c03.IDS[rec['name']], g_list(rec['refs'], g_N, 'N')))
             rmeta.append(dict(refs=rec['refs'], prog=name, partition=rec.get('partition'), **where))
-            fcases.append('(%s, %d%%N)' % (name, c03.IDS[rec['name']]))
             if 'rename_exc' in rec:
                 ctx.deviation(dict(stream='text', exc=rec['rename_exc']['exc'], site=rec['rename_exc']['site']),
                               dict(error=rec['rename_exc'], **where), 'rename raised')
@@ -185,25 +191,22 @@ def run(ctx):
                 tmeta.append(dict(idx=len(rmeta) - 1, new=t['new'], back=t.get('back'), back_exc=t.get('back_exc'),
                                   trace_equal=t['trace_equal'], renames=t['renames'], **where))
     ctx.stat('programs', stats)
-    # --- which identifiers are inside the fragment (model-computed classifier for known findings)
-    outside, err = common.coq_failing(IMPORTS, "(fun c => let '(p, x) := c in name_in_fragment p x)", fcases,
-                                      shard=1500, defs='\n'.join(defs))
-    if err:
-        raise RuntimeError('coq evaluation failed (fragment): ' + err)
-    outside = set(outside)
-    # --- refs vs the specification
-    fails, err = common.coq_failing(IMPORTS, 'chk_refs', rcases, shard=1500, defs='\n'.join(defs))
+    # --- one Coq evaluation per occurrence: [inside the C03 fragment; variable has a binding; refs = spec]
+    flags, err = common.coq_eval_N_lists(IMPORTS, 'chk_refs', rcases, shard=800, defs='\n'.join(defs), timeout=2400)
     if err:
         raise RuntimeError('coq evaluation failed (refs): ' + err)
-    failset = set(fails)
+    outside = {i for i, f in enumerate(flags) if not f[0]}
+    unbound = {i for i, f in enumerate(flags) if not f[1]}
+    failset = {i for i, f in enumerate(flags) if not f[2]}
+    stats['occurrences_of_unbound_names'] = len(unbound)
     n_out = 0
     for i, m in enumerate(rmeta):
         infrag = i not in outside
         n_out += (not infrag)
+        if i in unbound:
+            continue   # a name that is bound nowhere has no definition to collect references for
         if i in failset:
             spec = None
-            if len([v for v in ctx.violations if v]) < 12:
-                spec = common.coq_show(IMPORTS, ['sortN (refs_ids %s %d%%N)' % (m['prog'], m['occurrence'])], defs='\n'.join(defs))
             ctx.deviation(dict(stream='refs', cls='refs-differ-from-python-variable', in_c03_fragment=infrag),
                           dict(source=m['source'], occurrence=m['occurrence'], name=m['name'], reported=m['refs'], spec=spec),
                           'get_references from occurrence #%d reports %r, which is not the set of occurrences of that variable' % (m['occurrence'], m['refs']))
@@ -214,11 +217,13 @@ def run(ctx):
                               m['occurrence'], m['refs'], m['partition']['member'], m['partition']['other']))
     stats['occurrences_outside_fragment'] = n_out
     # --- rename text vs model, round trip, behaviour
-    tf, err = common.coq_failing(IMPORTS, 'chk_text', tcases, shard=150, defs=DEFS)
+    tf, err = common.coq_failing(IMPORTS, 'chk_text', tcases, shard=150, defs=DEFS, timeout=2400)
     if err:
         raise RuntimeError('coq evaluation failed (text): ' + err)
     tfs = set(tf)
     for k, m in enumerate(tmeta):
+        if m['idx'] in unbound:
+            continue
         infrag = m['idx'] not in outside
         refs_ok = m['idx'] not in failset
         if k in tfs:
